@@ -123,7 +123,9 @@ def _phc_contract(n):
     )
 
 
-CONTRACTS = [_phc_contract(1), _phc_contract(2), parse_mc3_hash, parse_mc3_config, parse_mc3_zero, parse_mc2_hash, parse_mc2_config, render_mc2, render_mc3]
+from contracts import c07_handlers  # noqa: E402
+
+CONTRACTS = c07_handlers.CONTRACTS + [_phc_contract(1), _phc_contract(2), parse_mc3_hash, parse_mc3_config, parse_mc3_zero, parse_mc2_hash, parse_mc2_config, render_mc2, render_mc3]
 
 
 def _mc_roundtrip():
@@ -139,7 +141,7 @@ def _mc_roundtrip():
     ]
 
 
-LEMMAS = [Lemma("mc3-roundtrip", _mc_roundtrip, "render_mc3 output satisfies parse_mc3's precondition and decodes to the same rounds")]
+LEMMAS = c07_handlers.LEMMAS + [Lemma("mc3-roundtrip", _mc_roundtrip, "render_mc3 output satisfies parse_mc3's precondition and decodes to the same rounds")]
 BOUNDED = [Bounded("c07", "harness/c07.py", descr="parse/render round trips of every hasher; libpass inspect/PHC", timeout=900)]
 
 MUTANTS = [
@@ -149,4 +151,10 @@ MUTANTS = [
     ("render_mc3 forgets the separator before the checksum", H, "        parts = [ident, rounds, sep, salt, sep, checksum]\n", "        parts = [ident, rounds, sep, salt, checksum]\n", "refute"),
     ("render_mc2 renders the checksum first", H, "        parts = [ident, salt, sep, checksum]\n", "        parts = [ident, checksum, sep, salt]\n", "refute"),
     ("parse_mc2 drops the last char of the salt", H, "        salt, chk = parts\n        return salt, chk or None\n", "        salt, chk = parts\n        return salt[:-1], chk or None\n", "refute"),
+    ("sha2_crypt.from_string: explicit rounds flagged implicit", "passlib/handlers/sha2_crypt.py", "            rounds = int(rounds)\n            implicit_rounds = False", "            rounds = int(rounds)\n            implicit_rounds = True", "refute", "sha256_crypt.from_string"),
+    ("sha2_crypt.from_string: rounds prefix cut one short", "passlib/handlers/sha2_crypt.py", "rounds = parts.pop(0)[7:]", "rounds = parts.pop(0)[6:]", "refute", "sha256_crypt.from_string"),
+    ("sha2_crypt.to_string: explicit rounds=5000 rendered as implicit", "passlib/handlers/sha2_crypt.py", "        if self.rounds == 5000 and self.implicit_rounds:", "        if self.rounds == 5000:", "refute", "sha256_crypt.to_string"),
+    ("des_crypt.from_string: digest starts one character late", "passlib/handlers/des_crypt.py", "        salt, chk = hash[:2], hash[2:]\n        return cls(salt=salt, checksum=chk or None)\n\n    def to_string(self):\n        return f\"{self.salt}{self.checksum or ''}\"\n\n    def _calc_checksum(self, secret):\n        # check for truncation", "        salt, chk = hash[:2], hash[3:]\n        return cls(salt=salt, checksum=chk or None)\n\n    def to_string(self):\n        return f\"{self.salt}{self.checksum or ''}\"\n\n    def _calc_checksum(self, secret):\n        # check for truncation", "refute", "^des_crypt"),
+    ("sha1_crypt.to_string: config strings keep the digest", "passlib/handlers/sha1_crypt.py", "        chk = None if config else self.checksum", "        chk = self.checksum", "refute", "sha1_crypt.to_string"),
+    ("sha2_crypt.to_string: harmless switch from format() to concatenation", "passlib/handlers/sha2_crypt.py", '            hash = "{}{}${}".format(self.ident, self.salt, self.checksum or "")', '            hash = self.ident + self.salt + "$" + (self.checksum or "")', "hold", "sha256_crypt.to_string"),
 ]
